@@ -44,7 +44,7 @@ func init() {
 	core.Register(&core.Rule{
 		ID:    "R20.4",
 		Title: "the cleaner recurses only into directories and removes them only when empty",
-		Text:  "In CleanTargetDir the recursive call is on the IsDir() branch; the directory listing is re-read after cleaning and the directory removed only under len(children) == 0 of that listing (R20.1 empty-dir row), never with RemoveAll.",
+		Text:  "In the cleaner (CleanTargetDir and the package functions on a call cycle with it) every call that hands a directory entry to a function or closure of the cleaner is on the entry.IsDir() branch; in every body that loops over a directory listing the listing is re-read after the loop, and the directory removed only under len(children) == 0 of that listing (R20.1 empty-dir row), never with RemoveAll.",
 		Props: []string{"C20"},
 		Floor: map[string]int{"v2": 2, "root": 2},
 		Run:   runR204,
